@@ -1770,14 +1770,16 @@ class Entity(Instance):
         return TextBlock(title="port (", content=[self._port_declarations(), ");"])
 
     def _library_declaration(self) -> TextBlock:
-        extern_libraries = set()
+        # dict instead of set so the order of the library clauses
+        # follows the order of instantiation (and not the hash seed)
+        extern_libraries = {}
 
         for entity in self._sub_entities:
             assert isinstance(entity, EntityInst)
             path = entity._entity.path()
             if path is not None and path != "work":
                 lib_name = path.split(".")[0]
-                extern_libraries.update([f"library {lib_name.lower()};"])
+                extern_libraries[f"library {lib_name.lower()};"] = None
 
         return TextBlock(
             [
